@@ -66,6 +66,15 @@ func (l *Lexer) readChar() {
 	}
 }
 
+// atEnd reports whether the whole input has been read.
+//
+// At the end of the input readChar leaves a NUL in l.ch, but a NUL is not
+// the end of the input: it is a character a script may contain, like any
+// other.
+func (l *Lexer) atEnd() bool {
+	return l.position >= len(l.characters)
+}
+
 // NextToken reads and returns the next token, skipping any intervening
 // white space, and swallowing any comments, in the process.
 func (l *Lexer) NextToken() token.Token {
@@ -367,7 +376,7 @@ func (l *Lexer) skipWhitespace() {
 
 // skip a comment (until the end of the line).
 func (l *Lexer) skipComment() {
-	for l.ch != '\n' && l.ch != rune(0) {
+	for l.ch != '\n' && !l.atEnd() {
 		l.readChar()
 	}
 	l.skipWhitespace()
@@ -420,7 +429,7 @@ func (l *Lexer) readString(delim rune) (string, error) {
 	for {
 		l.readChar()
 
-		if l.ch == rune(0) {
+		if l.atEnd() {
 			return "", fmt.Errorf("unterminated string")
 		}
 		if l.ch == delim {
@@ -440,7 +449,7 @@ func (l *Lexer) readString(delim rune) (string, error) {
 
 			l.readChar()
 
-			if l.ch == rune(0) {
+			if l.atEnd() {
 				return "", errors.New("unterminated string")
 			}
 			if l.ch == rune('n') {
@@ -473,7 +482,7 @@ func (l *Lexer) readRegexp() (string, error) {
 	for {
 		l.readChar()
 
-		if l.ch == rune(0) {
+		if l.atEnd() {
 			return "", fmt.Errorf("unterminated regular expression")
 		}
 		if l.ch == '/' {
